@@ -1132,3 +1132,169 @@ pub fn strip_indices(s: &str) -> String {
     }
     out
 }
+
+// ---------------------------------------------------------------------------------------------
+// Specification tables used by the fault-injection properties (C05, C12)
+
+use crate::mutate::{Path, Step};
+
+fn pk(k: i64) -> Step {
+    Step::Key(Value::int(k))
+}
+fn ps(k: &str) -> Step {
+    Step::Key(Value::text(k))
+}
+
+#[derive(Clone, Copy, Debug, PartialEq, Eq)]
+pub enum BoundKind {
+    BytesLen(usize),
+    TextLen(usize),
+    ListLen(usize),
+    UintMax(u64),
+    /// signed 32-bit
+    I32,
+    /// exactly this many bytes
+    BytesExact(usize),
+}
+
+#[derive(Clone, Debug)]
+pub struct Bound {
+    pub cmd: u8,
+    pub name: &'static str,
+    pub path: Path,
+    pub kind: BoundKind,
+    /// over-limit values are dropped, not rejected
+    pub lossy_drop: bool,
+}
+
+/// The limit table of the C12 statement, located in each command that carries the member.
+pub fn bounds() -> Vec<Bound> {
+    let b = |cmd, name, path: Vec<Step>, kind| Bound { cmd, name, path, kind, lossy_drop: false };
+    let mut v = vec![
+        b(CMD_MC, "user.id", vec![pk(3), ps("id")], BoundKind::BytesLen(64)),
+        b(CMD_MC, "rp.id", vec![pk(2), ps("id")], BoundKind::TextLen(256)),
+        Bound { cmd: CMD_MC, name: "user.icon", path: vec![pk(3), ps("icon")], kind: BoundKind::TextLen(128), lossy_drop: true },
+        b(CMD_MC, "pubKeyCredParams.type", vec![pk(4), Step::Index(0), ps("type")], BoundKind::TextLen(32)),
+        b(CMD_MC, "pubKeyCredParams.alg", vec![pk(4), Step::Index(0), ps("alg")], BoundKind::I32),
+        b(CMD_MC, "excludeList", vec![pk(5)], BoundKind::ListLen(16)),
+        b(CMD_MC, "credProtect", vec![pk(6), ps("credProtect")], BoundKind::UintMax(255)),
+        b(CMD_MC, "pinUvAuthProtocol", vec![pk(9)], BoundKind::UintMax(u32::MAX as u64)),
+        b(CMD_MC, "enterpriseAttestation", vec![pk(10)], BoundKind::UintMax(u32::MAX as u64)),
+        b(CMD_GA, "allowList", vec![pk(3)], BoundKind::ListLen(10)),
+        b(CMD_GA, "hmac-secret.saltEnc", vec![pk(4), ps("hmac-secret"), pk(2)], BoundKind::BytesLen(80)),
+        b(CMD_GA, "hmac-secret.saltAuth", vec![pk(4), ps("hmac-secret"), pk(3)], BoundKind::BytesLen(32)),
+        b(CMD_GA, "hmac-secret.keyAgreement.x", vec![pk(4), ps("hmac-secret"), pk(1), pk(-2)], BoundKind::BytesLen(32)),
+        b(CMD_GA, "hmac-secret.keyAgreement.y", vec![pk(4), ps("hmac-secret"), pk(1), pk(-3)], BoundKind::BytesLen(32)),
+        b(CMD_GA, "hmac-secret.pinUvAuthProtocol", vec![pk(4), ps("hmac-secret"), pk(4)], BoundKind::UintMax(u32::MAX as u64)),
+        b(CMD_GA, "pinUvAuthProtocol", vec![pk(7)], BoundKind::UintMax(u32::MAX as u64)),
+        b(CMD_GA, "enterpriseAttestation", vec![pk(8)], BoundKind::UintMax(u32::MAX as u64)),
+        b(CMD_CP, "pinUvAuthProtocol", vec![pk(1)], BoundKind::UintMax(255)),
+        b(CMD_CP, "permissions", vec![pk(9)], BoundKind::UintMax(255)),
+        b(CMD_CP, "keyAgreement.x", vec![pk(3), pk(-2)], BoundKind::BytesLen(32)),
+        b(CMD_CP, "keyAgreement.y", vec![pk(3), pk(-3)], BoundKind::BytesLen(32)),
+        b(CMD_LB, "get", vec![pk(1)], BoundKind::UintMax(u32::MAX as u64)),
+        b(CMD_LB, "offset", vec![pk(3)], BoundKind::UintMax(u32::MAX as u64)),
+        b(CMD_LB, "length", vec![pk(4)], BoundKind::UintMax(u32::MAX as u64)),
+        b(CMD_LB, "pinUvAuthProtocol", vec![pk(6)], BoundKind::UintMax(u32::MAX as u64)),
+    ];
+    for cmd in [CMD_CM, CMD_CM_PREVIEW] {
+        v.push(b(cmd, "pinUvAuthProtocol", vec![pk(3)], BoundKind::UintMax(255)));
+        v.push(b(cmd, "subCommandParams.rpIDHash", vec![pk(2), pk(1)], BoundKind::BytesExact(32)));
+        v.push(b(cmd, "subCommandParams.user.id", vec![pk(2), pk(3), ps("id")], BoundKind::BytesLen(64)));
+        v.push(Bound {
+            cmd,
+            name: "subCommandParams.user.icon",
+            path: vec![pk(2), pk(3), ps("icon")],
+            kind: BoundKind::TextLen(128),
+            lossy_drop: true,
+        });
+    }
+    v
+}
+
+/// Required members: (command, path of the containing map (may contain a wildcard list index),
+/// key). Removing one from an otherwise well-formed message must give MissingParameter.
+pub fn required_members(cmd: u8, model: &Value) -> Vec<(Path, Value)> {
+    let mut out: Vec<(Path, Value)> = vec![];
+    let top: &[i64] = match cmd {
+        CMD_MC => &[1, 2, 3, 4],
+        CMD_GA => &[1, 2],
+        CMD_CP => &[1, 2],
+        CMD_CM | CMD_CM_PREVIEW => &[1],
+        CMD_LB => &[3],
+        _ => &[],
+    };
+    for k in top {
+        out.push((vec![], Value::int(*k)));
+    }
+    let descriptor = |out: &mut Vec<(Path, Value)>, p: Path| {
+        out.push((p.clone(), Value::text("id")));
+        out.push((p, Value::text("type")));
+    };
+    let cose = |out: &mut Vec<(Path, Value)>, p: Path| {
+        for k in [1i64, -1, -2, -3] {
+            out.push((p.clone(), Value::int(k)));
+        }
+    };
+    let list_len = |p: &[Step]| crate::mutate::get(model, p).and_then(|v| v.as_array()).map(|a| a.len()).unwrap_or(0);
+    match cmd {
+        CMD_MC => {
+            out.push((vec![pk(2)], Value::text("id")));
+            out.push((vec![pk(3)], Value::text("id")));
+            for i in 0..list_len(&[pk(4)]) {
+                out.push((vec![pk(4), Step::Index(i)], Value::text("alg")));
+                out.push((vec![pk(4), Step::Index(i)], Value::text("type")));
+            }
+            for i in 0..list_len(&[pk(5)]) {
+                descriptor(&mut out, vec![pk(5), Step::Index(i)]);
+            }
+        }
+        CMD_GA => {
+            for i in 0..list_len(&[pk(3)]) {
+                descriptor(&mut out, vec![pk(3), Step::Index(i)]);
+            }
+            let h = vec![pk(4), ps("hmac-secret")];
+            if crate::mutate::get(model, &h).is_some() {
+                for k in [1i64, 2, 3] {
+                    out.push((h.clone(), Value::int(k)));
+                }
+                let mut c = h.clone();
+                c.push(pk(1));
+                cose(&mut out, c);
+            }
+        }
+        CMD_CP => {
+            if crate::mutate::get(model, &[pk(3)]).is_some() {
+                cose(&mut out, vec![pk(3)]);
+            }
+        }
+        CMD_CM | CMD_CM_PREVIEW => {
+            if crate::mutate::get(model, &[pk(2), pk(2)]).is_some() {
+                descriptor(&mut out, vec![pk(2), pk(2)]);
+            }
+            if crate::mutate::get(model, &[pk(2), pk(3)]).is_some() {
+                out.push((vec![pk(2), pk(3)], Value::text("id")));
+            }
+        }
+        _ => {}
+    }
+    // keep only those that exist in this model
+    out.into_iter()
+        .filter(|(p, k)| crate::mutate::get(model, p).and_then(|m| m.get(k)).is_some())
+        .collect()
+}
+
+/// members whose value is a signed integer (sign changes are not faults): by path suffix
+pub fn is_signed_member(path: &Path) -> bool {
+    match path.last() {
+        Some(Step::Key(Value::Text(t))) if t == b"alg" => true,
+        // COSE key members 1 (kty), 3 (alg), -1 (crv) hold small signed integers
+        Some(Step::Key(k)) => {
+            let in_cose = path.len() >= 2
+                && matches!(&path[path.len() - 2], Step::Key(Value::Uint(1)) | Step::Key(Value::Uint(3)))
+                && matches!(k.as_int(), Some(1) | Some(3) | Some(-1));
+            in_cose
+        }
+        _ => false,
+    }
+}
